@@ -117,7 +117,10 @@ impl PaddingFactory {
                 if min_val == max_val {
                     sizes.push(min_val as i32);
                 } else {
+                    #[cfg(not(feature = "verif-hooks"))]
                     let size = rand::random_range(min_val..=max_val);
+                    #[cfg(feature = "verif-hooks")]
+                    let size = crate::verif::pad_draw(min_val, max_val);
                     sizes.push(size as i32);
                 }
             }
